@@ -36,10 +36,38 @@ TEXT = {
         "technique": "Lean 4 simulation proof over all histories + model/implementation correspondence"},
 }
 
+_COUNT = ("Counting is proved over an ideal segmented sieve; the real cross-off algorithms are tied to it by the segment "
+          "and count correspondence streams (every bit of every sieved segment and every counter checked against an "
+          "independent oracle in the harness and against the Lean model). Trusted: Lean kernel + Mathlib, the three "
+          "standard axioms, translator, harness, compiled driver; std::atomic::fetch_add hands out each index once.")
+
+TEXT["C09"] = {
+    "text": "Proof (Lean 4): for every start < stop and every piece length that is a positive multiple of 30 (which "
+            "getThreadDistance always returns - proved), the pieces computed by ParallelSieve::sieve are adjacent, start "
+            "at start, end at stop, never run backwards, have interior boundaries = 2 (mod 30) and >= 32; no prime "
+            "constellation straddles such a boundary; per-piece prime and k-tuplet counts add up to the interval's "
+            "counts; and the total is the same for every assignment of piece indices to workers. The 64-bit "
+            "wrap/saturation arithmetic of the real code is proved equal to the exact arithmetic under an explicit "
+            "no-wrap side condition (only relevant at stop = 2^64-1). Tied to src/ParallelSieve.cpp by hook H1: the "
+            "harness records every (index, start, stop) handed to a worker, for production and reduced piece lengths, "
+            "and the Lean model must reproduce thread count, piece length, the piece list and all six counters. "
+            "Partial: freedom from data races of the real threads is not expressible in the model.",
+    "design_ref": "DESIGN.md section 8 C09", "note": _COUNT,
+    "technique": "Lean 4 proof of tiling/no-split/schedule-independence + model/implementation correspondence via hook H1"}
+TEXT["C10"] = {
+    "text": "Proof (Lean 4): 18446744073709551557 is prime (two-level Lucas certificate checked by the kernel, no "
+            "native_decide) and each of the 58 larger numbers below 2^64 has an explicit factor; hence every value the "
+            "iterator model returns is <= that prime, an iterator positioned there returns it and then fails with "
+            "primesieve_error on every later call for any hint/block policy/float oracle; checkedAdd/checkedSub "
+            "saturate. Tied to the code by the iter, count and segment streams with arguments in the top of the range. "
+            "Partial: the no-wrap lemmas for the cross-off index arithmetic belong to the sieve chain (not yet proved).",
+    "design_ref": "DESIGN.md section 8 C10", "note": _IGEN,
+    "technique": "Lean 4 proof (Lucas primality certificate, saturation lemmas, iterator refinement) + correspondence"}
+
 NOT_APPLICABLE = [
     {"property_id": "C18",
      "reason": "|R(x)-pi(x)| < sqrt(x) on [2,2^64) is an RH-strength statement about pi(x) evaluated in x87 long double; "
                "Lean/Mathlib can neither state the float semantics nor prove the bound; see DESIGN.md section 8 C18"},
 ]
-for _p in ["C04", "C05", "C06", "C07", "C08", "C09", "C10", "C11", "C12", "C13", "C14", "C15", "C16", "C17"]:
+for _p in [x for x in ["C04", "C05", "C06", "C07", "C08", "C09", "C10", "C11", "C12", "C13", "C14", "C15", "C16", "C17"] if x not in TEXT]:
     NOT_APPLICABLE.append({"property_id": _p, "reason": "not claimed yet: model/theorems under construction (will be claimed once its check exists)"})
